@@ -14,8 +14,44 @@ from vlib import *  # noqa
 SOURCES = ["C01", "C02", "C04", "C06", "C07", "C09", "C11"]
 
 
+def shared_cases(rng, tier):
+    """cases for harness/c/drv_conc.c: library calls on inputs shared by all threads"""
+    out = []
+    n = 60 if tier == "quick" else 400
+    for _ in range(n):
+        k = rng.choice([1, 2, 3, 16, 255, 256, 257, 1000])
+        dvals = sorted(set(rand_u64(rng) if rng.random() < 0.5 else rng.randint(0, 5000) for _ in range(k)))
+        vals = [rng.choice(dvals) for _ in range(rng.randint(1, 300))]
+        out.append("conc_dict %s %s" % (lst(dvals), lst(vals)))
+    for _ in range(n):
+        m = rng.choice([1, 2, 50, 128, 129, 1024, 1500, 4000])
+        r = rng.random()
+        if r < 0.3:
+            vals = [rng.randint(0, 65535) for _ in range(m)]
+        elif r < 0.5:
+            base = rng.getrandbits(40)
+            vals = sorted(base + rng.randint(0, 100000) for _ in range(m))
+        elif r < 0.7:
+            pool = [rand_u64(rng) for _ in range(rng.randint(1, 20))]
+            vals = [rng.choice(pool) for _ in range(m)]
+        else:
+            vals = [rand_u64(rng) for _ in range(m)]
+        out.append("conc_enc %s" % lst(vals))
+    for _ in range(n):
+        def bset():
+            r = rng.random()
+            if r < 0.3:
+                return [rng.randint(0, 65535) for _ in range(rng.randint(0, 200))]
+            if r < 0.6:
+                return [rng.randint(0, 65535) for _ in range(rng.randint(4000, 5000))]
+            a = rng.randint(0, 60000)
+            return [(1 << 32) | (a << 16) | min(65535, a + rng.randint(1, 6000))] + [rng.randint(0, 65535) for _ in range(20)]
+        out.append("conc_bm %s %s %s" % (lst(bset()), lst(bset()), lst([rng.randint(0, 65535) for _ in range(50)])))
+    return out
+
+
 def custom(ctx):
-    cases = []
+    cases = shared_cases(ctx.rng, ctx.tier)
     per = 400 if ctx.tier == "quick" else 4000
     for prop in SOURCES:
         try:
@@ -41,7 +77,7 @@ def custom(ctx):
             failures.append(("pinned", "--threads 16 %s" % p, "a call returned a different result when run concurrently: %s %s" % (line, " | ".join(out[1:3])), line))
             break
     # TSan build: data races
-    tcases = cases[: (1500 if ctx.tier == "quick" else 12000)]
+    tcases = [c for c in cases if c.startswith("conc_")] + [c for c in cases if not c.startswith("conc_")][: (1500 if ctx.tier == "quick" else 12000)]
     try:
         bt = ctx.build("tsan")
         rc, out, err = ctx.run_c(bt, tcases, args=["--threads", "16"],
